@@ -110,7 +110,7 @@ class GroupBCD(BaseSolver):
             stop_crit = max(np.max(opt), intercept_opt)
 
             if self.verbose:
-                p_obj = datafit.value(y, w, Xw) + penalty.value(w)
+                p_obj = datafit.value(y, w, Xw) + penalty.value(w[:n_features])
                 print(
                     f"Iteration {t+1}: {p_obj:.10f}, "
                     f"stopping crit: {stop_crit:.2e}"
@@ -143,8 +143,9 @@ class GroupBCD(BaseSolver):
                 w_acc, Xw_acc, is_extrapolated = accelerator.extrapolate(w, Xw)
 
                 if is_extrapolated:  # avoid computing p_obj for un-extrapolated w, Xw
-                    p_obj = datafit.value(y, w, Xw) + penalty.value(w)
-                    p_obj_acc = datafit.value(y, w_acc, Xw_acc) + penalty.value(w_acc)
+                    p_obj = datafit.value(y, w, Xw) + penalty.value(w[:n_features])
+                    p_obj_acc = (datafit.value(y, w_acc, Xw_acc)
+                                 + penalty.value(w_acc[:n_features]))
 
                     if p_obj_acc < p_obj:
                         w[:], Xw[:] = w_acc, Xw_acc
@@ -169,7 +170,7 @@ class GroupBCD(BaseSolver):
                     stop_crit_in = np.max(opt_ws)
 
                     if max(self.verbose - 1, 0):
-                        p_obj = datafit.value(y, w, Xw) + penalty.value(w)
+                        p_obj = datafit.value(y, w, Xw) + penalty.value(w[:n_features])
                         print(
                             f"Epoch {epoch + 1}, objective {p_obj:.10f}, "
                             f"stopping crit {stop_crit_in:.2e}"
@@ -177,7 +178,7 @@ class GroupBCD(BaseSolver):
 
                     if stop_crit_in <= 0.3 * stop_crit:
                         break
-            p_obj = datafit.value(y, w, Xw) + penalty.value(w)
+            p_obj = datafit.value(y, w, Xw) + penalty.value(w[:n_features])
             p_objs_out[t] = p_obj
 
         return w, p_objs_out, stop_crit
